@@ -22,7 +22,9 @@ RULE = (
     "harness-controlled hash values of tasks/components (iteration order of the library's internal sets); "
     "R3 simulate again on the same object, also after backward_simulate (with and without considering_due_time_of_tail_tasks) / initialize / insert+remove absence / "
     "simulate() with default arguments, and a fresh project simulated with default arguments afterwards (no "
-    "hidden state); R4 (thorough) the same batch of specs simulated in child processes with other "
+    "hidden state); R5 warm start: the model is obtained by editing, in place, the objects of another model that has "
+    "already been simulated (morph), or by swapping freshly built product/workflow/organization into a used project "
+    "object (graft) - the result must equal the fresh build; R4 (thorough) the same batch of specs simulated in child processes with other "
     "PYTHONHASHSEED values. Non-trivial = the reference run has two FF/SF-linked tasks whose finish checks fall "
     "in the same step, or two competing READY/WORKING tasks with equal priority key; distinct by spec hash."
 )
@@ -76,6 +78,7 @@ def _case(draw, cfg):
         "ch": [list(hv(nc)), list(hv(nc))],
         "ops": draw(st.lists(st.sampled_from(OPS), max_size=3)),
         "junk": draw(st.integers(1, 50)),
+        "warm": draw(st.sampled_from([[], [], ["morph"], ["graft"], ["morph", "graft"]])),
     }
 
 
@@ -161,6 +164,17 @@ def check(case):
     elif da != dref:
         diffs = S.diff_dumps(dref, da)
         res.fail("C09.R2_vs_plain", "hash-controlled run differs from the plain run: %s" % "; ".join(diffs[:3]), sig=_sig(diffs))
+
+    # R5: objects that have already lived (spec.warm_build: another model of the same shape was simulated on them,
+    # then they were edited in place / swapped into the old project object) give the result of a fresh build
+    for mode in case.get("warm", []):
+        hw = S.warm_build(dict(spec, warm={"mode": mode, "k": case.get("junk", 1) % 3 + 1}))
+        S.simulate(hw.project, spec["opts"])
+        dw = S.dump(hw.project)
+        res.cls("warm_" + mode)
+        if dw != dref:
+            diffs = S.diff_dumps(dref, dw)
+            res.fail("C09.R5_warm_start", "a model edited into this spec after an earlier run (%s) differs from the fresh build: %s" % (mode, "; ".join(diffs[:3])), sig=mode)
 
     # R3: repetition on one object / no hidden state
     p = href.project
